@@ -124,8 +124,22 @@ class EngineTheory(Theory):
             return SV('Module', 'sys')
         fns = ('builtin_eq', 'unify', 'get_value', 'to_python')
         if name in fns:
-            return SV('Fn', '(fn_%s)' % name, {'name': name})
+            self._nparams_fact(st, 'fn_%s' % name, name, False)
+            return SV('Fn', 'fn_%s' % name, {'name': name})
         return None
+
+    def _nparams_fact(self, st, term, qname, bound):
+        """len(inspect.signature(f).parameters) of a function of the real module, read off its def (A-EXT-INSPECT);
+        bound methods do not count self; *args / defaults are counted as inspect does (one parameter each)"""
+        from . import core
+        fd = core.module('engine').functions.get(qname)
+        if fd is None:
+            return
+        a = fd.args
+        n = len(a.posonlyargs) + len(a.args) + len(a.kwonlyargs) + (1 if a.vararg else 0) + (1 if a.kwarg else 0)
+        if bound:
+            n -= 1
+        st.assume('(= (nparams %s) %d)' % (term, n))
 
     def truthy(self, ex, v):
         if v.sort == 'OptFn':
@@ -159,6 +173,10 @@ class EngineTheory(Theory):
             return self.new_list(ex, st, '(as seq.empty FSeq)')
         if want == 'Term' and a.sort in ('Int', 'Str'):
             return None
+        if want == 'OptInt' and a.sort == 'Int':
+            return SV('OptInt', a.e, {'none': 'false'})
+        if want == 'OptInt' and a.sort == 'None':
+            return SV('OptInt', '0', {'none': 'true'})
         if want == 'Any':
             return a
         return None
@@ -192,6 +210,7 @@ class EngineTheory(Theory):
                 return [(st, SV('Str', '"."'))]
             from . import core
             if ('YP.' + attr) in core.module('engine').functions:
+                self._nparams_fact(st, '(fn_method "%s")' % attr, 'YP.' + attr, True)
                 return [(st, SV('Fn', '(fn_method "%s")' % attr, {'name': 'YP.' + attr}))]
         if base.sort == 'Answer' and attr == 'values':
             return [(st, SV('TList', '(select %s %s)' % (st.comp['avalues'], base.e)))]
@@ -319,6 +338,13 @@ class EngineTheory(Theory):
             r = None
             if b.sort == 'FList' and a.sort == 'Answer':
                 r = '(seq.contains (select %s %s) (seq.unit %s))' % (st.comp['lists'], b.e, a.e)
+                from . import core
+                if core.module('engine').defines('Answer', ('__eq__', '__ne__')):
+                    # list membership is `x is y or x == y`: with a user-defined equality on Answer an object that is not in
+                    # the list may still be reported as a member - only identity membership => True is known
+                    m = ex.fresh('Bool', 'member_by_eq')
+                    st.assume(IMP(r, m))
+                    r = m
             elif b.sort == 'Blacklist' and a.sort == 'Str':
                 r = '(select %s %s)' % (st.comp['blacklist'], a.e)
             elif b.sort == 'VarMap' and a.sort == 'Term':
@@ -335,6 +361,10 @@ class EngineTheory(Theory):
         return None
 
     def equal(self, ex, e, op, a, b, st):
+        if a.sort == b.sort == 'Answer' and not isinstance(op, (ast.Is, ast.IsNot)):
+            from . import core
+            if core.module('engine').defines('Answer', ('__eq__', '__ne__')):
+                return ex.fresh('Bool', 'user_eq')      # user-defined equality: meaning unknown
         if a.sort == b.sort and a.sort in ('Answer', 'FList', 'Fn'):
             return EQ(a.e, b.e)
         if {a.sort, b.sort} == {'Fn', 'OptFn'} or (a.sort == b.sort == 'OptFn'):
